@@ -14,6 +14,9 @@ package netutil
 //@   ensures no-colon-dot: len(h) > 0 && (forall i int :: {h[i]} 0 <= i && i < len(h) ==> h[i] != ':') && h[len(h)-1] == '.' ==> result == h[:len(h)-1]
 //@   ensures no-colon: len(h) > 0 && (forall i int :: {h[i]} 0 <= i && i < len(h) ==> h[i] != ':') && h[len(h)-1] != '.' ==> result == h
 
+//@   ensures port: forall j int :: {h[j]} 0 < j && j < len(h) && h[j] == ':' && h[j-1] != '.' && (forall i int :: {h[i]} 0 <= i && i < len(h) && i != j ==> h[i] != ':' && h[i] != '[' && h[i] != ']') ==> result == h[:j]
+//@   ensures port-dot: forall j int :: {h[j]} 0 < j && j < len(h) && h[j] == ':' && h[j-1] == '.' && (forall i int :: {h[i]} 0 <= i && i < len(h) && i != j ==> h[i] != ':' && h[i] != '[' && h[i] != ']') ==> result == h[:j-1]
+
 //@ func SplitHostZone props C09,C18
 //@   ensures nozone: (forall i int :: {s[i]} 1 <= i && i < len(s) ==> s[i] != '%') ==> host == s && len(zone) == 0
 //@   ensures zone: (exists i int :: 1 <= i && i < len(s) && s[i] == '%') ==> len(host) + 1 + len(zone) == len(s) && host == s[:len(host)] && s[len(host)] == '%' && zone == s[len(host)+1:] && forall i int :: {s[i]} len(host) < i && i < len(s) ==> s[i] != '%'
